@@ -5,7 +5,7 @@ From Coq Require Import List NArith ZArith Bool Lia Arith ZifyBool ZifyN ZifyNat
 From Okv Require Import Model.Lit Model.LitSpec Model.Syntax Model.Comb Model.ParseExpr Model.ParseMeta
   Model.ParsePosting Model.ParseTxn Model.ParseDirective Model.ParseLedger Model.DocGrammar
   Model.RoundTripSpec Model.DocGrammarTxn
-  Proofs.LitProofs Proofs.CombSpec Proofs.ParseSafe Proofs.ParseTotal Proofs.DocAccept
+  Proofs.LitProofs Proofs.CombSpec Proofs.ParseExprErase Proofs.ParseSafe Proofs.ParseTotal Proofs.DocAccept
   Proofs.RoundTripBase Proofs.RoundTripNum Proofs.RoundTripExpr Proofs.RoundTripLot Proofs.RoundTripMeta
   Proofs.RoundTripPosting Proofs.RoundTripTxn.
 Import ListNotations.
@@ -233,10 +233,10 @@ Proof. intros x H. exact (head_in_impl _ _ x lit_head_expr (doc_amount_lit_head 
 
 (* a value expression that starts with a minus sign is a negative literal: without the sign
    it is an amount-expr again *)
-Lemma neg_amount : forall d x', doc_value_expr d (45 :: x') -> doc_amount x'.
+Lemma neg_amount : forall d h x', doc_value_expr d h (45 :: x') -> doc_amount x' /\ h = 1%nat.
 Proof.
-  intros d x' H. remember (45 :: x') as x eqn:E.
-  destruct H as [d x Ha | d s1 x0 s2 H1 H2 H3]; [| discriminate].
+  intros d h x' H. remember (45 :: x') as x eqn:E.
+  destruct H as [d x Ha | d h s1 x0 s2 H1 H2 H3]; [| discriminate]. split; [| reflexivity].
   destruct Ha as [l s c Hl Hs Hc].
   destruct (doc_decimal_shape l Hl) as (body & [-> | ->] & (c0 & b' & -> & Hc0) & _ & Hb).
   - cbn [app] in E. inversion E; subst. discriminate.
@@ -286,53 +286,56 @@ Proof.
   rewrite Hi, H. rewrite (space0_ok s2 z Hs Hz). reflexivity.
 Qed.
 
+Notation HMAX := max_expr_height.
+
 Section DocExpr.
 Variable fuel : nat.
 
-Definition Vd (d : nat) (x : list N) : Prop := forall D k,
-  (d <= D)%nat -> good_follow k -> (length x <= fuel)%nat ->
-  exists v r, VE fuel D (x ++ k) = POk v r /\ rest_ok r k.
+(* every statement also gives the height of the tree that is read: the index h *)
+Definition Vd (d h : nat) (x : list N) : Prop := forall D k,
+  (d <= D)%nat -> (h <= HMAX)%nat -> good_follow k -> (length x <= fuel)%nat ->
+  exists v r, VE fuel D (x ++ k) = POk v r /\ rest_ok r k /\ vexpr_height v = h.
 
-Definition Ud (d : nat) (x : list N) : Prop := forall D k,
-  (d <= D)%nat -> good_follow k -> (length x <= fuel)%nat ->
-  exists e r, U fuel D (x ++ k) = POk e r /\ rest_ok r k.
+Definition Ud (d h : nat) (x : list N) : Prop := forall D k,
+  (d <= D)%nat -> (h <= HMAX)%nat -> good_follow k -> (length x <= fuel)%nat ->
+  exists e r, U fuel D (x ++ k) = POk e r /\ rest_ok r k /\ expr_height e = h.
 
-Definition Mopen (d : nat) (x : list N) : Prop := exists n, (n <= length x)%nat /\ forall D k f,
-  (d <= D)%nat -> good_follow k -> (length x <= fuel)%nat ->
-  exists e r, separated_foldl1 (f + n) (U fuel D) (sep mul_op) mk (x ++ k)
-              = foldl1_loop f (U fuel D) (sep mul_op) mk e r /\ rest_ok r k.
+Definition Mopen (d h : nat) (x : list N) : Prop := exists n, (n <= length x)%nat /\ forall D k f,
+  (d <= D)%nat -> (h <= HMAX)%nat -> good_follow k -> (length x <= fuel)%nat ->
+  exists e r, infixl_e (f + n) mul_op (U fuel D) (x ++ k)
+              = chain_loop f mul_op (U fuel D) e r /\ rest_ok r k /\ expr_height e = h.
 
-Definition Mok (d : nat) (x : list N) : Prop := forall D k,
-  (d <= D)%nat -> good_follow k -> no_mul k -> (length x <= fuel)%nat ->
-  exists e r, M fuel D (x ++ k) = POk e r /\ rest_ok r k.
+Definition Mok (d h : nat) (x : list N) : Prop := forall D k,
+  (d <= D)%nat -> (h <= HMAX)%nat -> good_follow k -> no_mul k -> (length x <= fuel)%nat ->
+  exists e r, M fuel D (x ++ k) = POk e r /\ rest_ok r k /\ expr_height e = h.
 
-Definition Aopen (d : nat) (x : list N) : Prop := exists n, (n <= length x)%nat /\ forall D k f,
-  (d <= D)%nat -> good_follow k -> no_mul k -> (length x <= fuel)%nat ->
-  exists e r, separated_foldl1 (f + n) (M fuel D) (sep add_op) mk (x ++ k)
-              = foldl1_loop f (M fuel D) (sep add_op) mk e r /\ rest_ok r k.
+Definition Aopen (d h : nat) (x : list N) : Prop := exists n, (n <= length x)%nat /\ forall D k f,
+  (d <= D)%nat -> (h <= HMAX)%nat -> good_follow k -> no_mul k -> (length x <= fuel)%nat ->
+  exists e r, infixl_e (f + n) add_op (M fuel D) (x ++ k)
+              = chain_loop f add_op (M fuel D) e r /\ rest_ok r k /\ expr_height e = h.
 
-Definition Aok (d : nat) (x : list N) : Prop := forall D k,
-  (d <= D)%nat -> good_follow k -> no_mul k -> no_add k -> (length x <= fuel)%nat ->
-  exists e r, A fuel D (x ++ k) = POk e r /\ rest_ok r k.
+Definition Aok (d h : nat) (x : list N) : Prop := forall D k,
+  (d <= D)%nat -> (h <= HMAX)%nat -> good_follow k -> no_mul k -> no_add k -> (length x <= fuel)%nat ->
+  exists e r, A fuel D (x ++ k) = POk e r /\ rest_ok r k /\ expr_height e = h.
 
-Lemma Mclose : forall d x, Mopen d x -> Mok d x.
+Lemma Mclose : forall d h x, Mopen d h x -> Mok d h x.
 Proof.
-  intros d x (n & Hn & H) D k HD G NM L.
-  destruct (H D k (fuel - n)%nat HD G L) as (e & r & E & R).
-  exists e, r. split; [| exact R].
-  unfold M, infixl. fold (sep mul_op). fold mk.
+  intros d h x (n & Hn & H) D k HD HH G NM L.
+  destruct (H D k (fuel - n)%nat HD HH G L) as (e & r & E & R & T).
+  exists e, r. split; [| split; [exact R | exact T]].
+  unfold M.
   replace fuel with (fuel - n + n)%nat at 1 by lia. rewrite E.
   destruct (sep_fail mul_op r) as [r' Er].
   { rewrite (rest_ok_skip r k R). apply mul_op_fail. exact NM. }
   eapply loop_stop. exact Er.
 Qed.
 
-Lemma Aclose : forall d x, Aopen d x -> Aok d x.
+Lemma Aclose : forall d h x, Aopen d h x -> Aok d h x.
 Proof.
-  intros d x (n & Hn & H) D k HD G NM NA L.
-  destruct (H D k (fuel - n)%nat HD G NM L) as (e & r & E & R).
-  exists e, r. split; [| exact R].
-  unfold A, infixl. fold (sep add_op). fold mk.
+  intros d h x (n & Hn & H) D k HD HH G NM NA L.
+  destruct (H D k (fuel - n)%nat HD HH G NM L) as (e & r & E & R & T).
+  exists e, r. split; [| split; [exact R | exact T]].
+  unfold A.
   replace fuel with (fuel - n + n)%nat at 1 by lia. rewrite E.
   destruct (sep_fail add_op r) as [r' Er].
   { rewrite (rest_ok_skip r k R). apply add_op_fail. exact NA. }
@@ -340,62 +343,66 @@ Proof.
 Qed.
 
 (* amount-expr *)
-Lemma V_amount_doc : forall d x, doc_amount x -> Vd d x.
+Lemma V_amount_doc : forall d x, doc_amount x -> Vd d 1 x.
 Proof.
-  intros d x H D k HD G L. destruct (amount_doc x k H G) as (a & r & E & R).
-  exists (SAmount a), r. split; [| exact R].
+  intros d x H D k HD _ G L. destruct (amount_doc x k H G) as (a & r & E & R).
+  exists (SAmount a), r. split; [| split; [exact R | reflexivity]].
   destruct (doc_amount_lit_head x H) as (c & x' & -> & Hc). cbn [app] in *.
   pose proof (lit_head_not_paren c Hc) as H40.
   rewrite (VE_amount fuel D c (x' ++ k) H40). apply pmap_ok. exact E.
 Qed.
 
 (* paren-expr *)
-Lemma V_paren_doc : forall d s1 x s2, sps0 s1 -> sps0 s2 -> Aok d x -> head_in is_expr_head x ->
-  Vd (S d) ([40] ++ s1 ++ x ++ s2 ++ [41]).
+Lemma V_paren_doc : forall d h s1 x s2, sps0 s1 -> sps0 s2 -> Aok d h x -> head_in is_expr_head x ->
+  Vd (S d) (S h) ([40] ++ s1 ++ x ++ s2 ++ [41]).
 Proof.
-  intros d s1 x s2 H1 H2 Hx Hh D k HD G L.
+  intros d h s1 x s2 H1 H2 Hx Hh D k HD HH G L.
   destruct D as [| D]; [lia |].
   assert (Lx : (length x <= fuel)%nat) by (rewrite !app_length in L; lia).
   assert (St : stop_start (41 :: k)) by (repeat split).
   assert (Sk : skip_sp (s2 ++ 41 :: k) = 41 :: k) by (apply skip_sps_stop; assumption).
-  destruct (Hx D (s2 ++ 41 :: k) ltac:(lia) (good_follow_sps _ _ H2 St)
+  destruct (Hx D (s2 ++ 41 :: k) ltac:(lia) ltac:(lia) (good_follow_sps _ _ H2 St)
               ltac:(unfold no_mul; rewrite Sk; reflexivity)
-              ltac:(unfold no_add; rewrite Sk; reflexivity) Lx) as (e & r & E & R).
-  exists (SParen e), k. split; [| left; reflexivity].
-  rewrite <- !app_assoc. cbn [app]. rewrite VE_paren. apply pmap_ok.
-  unfold paren, delimited, bind. rw (chr_ok 40 (s1 ++ x ++ s2 ++ 41 :: k)).
+              ltac:(unfold no_add; rewrite Sk; reflexivity) Lx) as (e & r & E & R & T).
+  exists (SParen e), k. split; [| split; [left; reflexivity | cbn [vexpr_height]; rewrite T; reflexivity]].
+  rewrite <- !app_assoc. cbn [app]. rewrite VE_paren.
+  unfold paren_e, try_map, paren, delimited, bind. rw (chr_ok 40 (s1 ++ x ++ s2 ++ 41 :: k)).
   rw (space0_ok s1 (x ++ s2 ++ 41 :: k) H1 (head_not_sp x _ Hh)).
   rw E. destruct (space0_skip r) as [s0 Es]. rw Es. rewrite (rest_ok_skip _ _ R), Sk.
-  unfold ret at 1. cbv beta iota. rw (chr_ok 41 k). reflexivity.
+  unfold ret. cbv beta iota. rw (chr_ok 41 k).
+  rewrite (fits_under_le (expr_height e)) by (rewrite T; exact HH). reflexivity.
 Qed.
 
 (* unary-expr *)
-Lemma U_pos_doc : forall d x, doc_value_expr d x -> Vd d x -> head_in is_expr_head x -> Ud d x.
+Lemma U_pos_doc : forall d h x, doc_value_expr d h x -> Vd d h x -> head_in is_expr_head x ->
+  Ud d (neg_head x + h) x.
 Proof.
-  intros d x H Hv (c & x' & -> & _) D k HD G L.
+  intros d h x H Hv (c & x' & -> & _) D k HD HH G L. cbn [neg_head] in *.
   destruct (N.eqb_spec c 45) as [-> | Hc].
   - (* a negative literal: the parser reads the sign as a negation *)
-    pose proof (neg_amount d x' H) as Ha.
+    destruct (neg_amount d h x' H) as [Ha ->].
     assert (Lx : (length x' <= fuel)%nat) by (simpl in L; lia).
-    destruct (V_amount_doc d x' Ha D k HD G Lx) as (v & r & E & R).
-    exists (SUnaryNeg (SValue v)), r. split; [| exact R].
-    unfold U, unary_expr. cbn [app]. rewrite N.eqb_refl.
-    unfold negate_expr, preceded, pmap, bind. rw (chr_ok 45 (x' ++ k)).
-    fold (VE fuel D). rw E. reflexivity.
-  - destruct (Hv D k HD G L) as (v & r & E & R).
-    exists (SValue v), r. split; [| exact R].
-    unfold U, unary_expr. cbn [app]. apply N.eqb_neq in Hc. rewrite Hc.
+    destruct (V_amount_doc d x' Ha D k HD ltac:(lia) G Lx) as (v & r & E & R & T).
+    exists (SUnaryNeg (SValue v)), r. split; [| split; [exact R | cbn [expr_height]; rewrite T; reflexivity]].
+    unfold U, unary_e. cbn [app]. rewrite N.eqb_refl.
+    unfold negate_e, try_map, preceded, bind. rw (chr_ok 45 (x' ++ k)).
+    fold (VE fuel D). rw E.
+    rewrite (fits_under_le (vexpr_height v)) by (rewrite T; exact HH). reflexivity.
+  - destruct (Hv D k HD ltac:(lia) G L) as (v & r & E & R & T).
+    exists (SValue v), r. split; [| split; [exact R | exact T]].
+    unfold U, unary_e. cbn [app]. apply N.eqb_neq in Hc. rewrite Hc.
     apply pmap_ok. exact E.
 Qed.
 
-Lemma U_neg_doc : forall d x, Vd d x -> Ud d (45 :: x).
+Lemma U_neg_doc : forall d h x, Vd d h x -> Ud d (S h) (45 :: x).
 Proof.
-  intros d x Hv D k HD G L. assert (Lx : (length x <= fuel)%nat) by (simpl in L; lia).
-  destruct (Hv D k HD G Lx) as (v & r & E & R).
-  exists (SUnaryNeg (SValue v)), r. split; [| exact R].
-  unfold U, unary_expr. cbn [app]. rewrite N.eqb_refl.
-  unfold negate_expr, preceded, pmap, bind. rw (chr_ok 45 (x ++ k)).
-  fold (VE fuel D). rw E. reflexivity.
+  intros d h x Hv D k HD HH G L. assert (Lx : (length x <= fuel)%nat) by (simpl in L; lia).
+  destruct (Hv D k HD ltac:(lia) G Lx) as (v & r & E & R & T).
+  exists (SUnaryNeg (SValue v)), r. split; [| split; [exact R | cbn [expr_height]; rewrite T; reflexivity]].
+  unfold U, unary_e. cbn [app]. rewrite N.eqb_refl.
+  unfold negate_e, try_map, preceded, bind. rw (chr_ok 45 (x ++ k)).
+  fold (VE fuel D). rw E.
+  rewrite (fits_under_le (vexpr_height v)) by (rewrite T; exact HH). reflexivity.
 Qed.
 
 (* one more operand of a chain *)
@@ -403,21 +410,21 @@ Lemma chain_more : forall (opp : parser s_binop) (p : nat -> parser s_expr) x s1
   (forall rest, opp (op :: rest) = POk o rest) -> stop_start (op :: s2 ++ y) ->
   sps0 s1 -> sps0 s2 -> head_in is_expr_head y ->
   forall D k f e1 r1 b r,
-    separated_foldl1 (S f + n) (p D) (sep opp) mk (x ++ s1 ++ [op] ++ s2 ++ y ++ k)
-      = foldl1_loop (S f) (p D) (sep opp) mk e1 r1 ->
+    infixl_e (S f + n) opp (p D) (x ++ s1 ++ [op] ++ s2 ++ y ++ k)
+      = chain_loop (S f) opp (p D) e1 r1 ->
     rest_ok r1 (s1 ++ [op] ++ s2 ++ y ++ k) ->
     p D (y ++ k) = POk b r ->
-    separated_foldl1 (f + S n) (p D) (sep opp) mk ((x ++ s1 ++ [op] ++ s2 ++ y) ++ k)
-      = foldl1_loop f (p D) (sep opp) mk (SBinary o e1 b) r.
+    fits_under (Nat.max (expr_height e1) (expr_height b)) = true ->
+    infixl_e (f + S n) opp (p D) ((x ++ s1 ++ [op] ++ s2 ++ y) ++ k)
+      = chain_loop f opp (p D) (SBinary o e1 b) r.
 Proof.
-  intros opp p x s1 op s2 y n o Hop Hst H1 H2 Hy D k f e1 r1 b r E1 R1 Eb.
+  intros opp p x s1 op s2 y n o Hop Hst H1 H2 Hy D k f e1 r1 b r E1 R1 Eb Hfit.
   rewrite <- !app_assoc. replace (f + S n)%nat with (S f + n)%nat by lia. rewrite E1.
   assert (Sk : skip_sp (s1 ++ [op] ++ s2 ++ y ++ k) = op :: s2 ++ y ++ k).
   { cbn [app]. apply skip_sp_all; [exact H1 |]. simpl. apply Hst. }
-  eapply loop_step; [| | exact Eb].
-  - apply (sep_ok2 opp o op s2 (y ++ k)); [apply Hop | exact H2 | apply head_not_sp; exact Hy |].
-    rewrite (rest_ok_skip _ _ R1). exact Sk.
-  - pose proof (rest_ok_len _ _ R1) as Ln. rewrite Sk in Ln. cbn [length] in Ln. rewrite app_length in Ln. lia.
+  eapply loop_step; [| exact Eb | exact Hfit].
+  apply (sep_ok2 opp o op s2 (y ++ k)); [apply Hop | exact H2 | apply head_not_sp; exact Hy |].
+  rewrite (rest_ok_skip _ _ R1). exact Sk.
 Qed.
 
 Lemma op_follow : forall s1 op s2 y k, sps0 s1 -> mul_char op \/ add_char op ->
@@ -427,52 +434,56 @@ Proof.
   split; [apply good_follow_sps | apply skip_sps_stop]; auto using op_stop.
 Qed.
 
-Lemma M_more_doc : forall d x s1 op s2 y, Mopen d x -> sps0 s1 -> mul_char op -> sps0 s2 ->
-  Ud d y -> head_in is_expr_head y -> Mopen d (x ++ s1 ++ [op] ++ s2 ++ y).
+Lemma M_more_doc : forall d h1 h2 x s1 op s2 y, Mopen d h1 x -> sps0 s1 -> mul_char op -> sps0 s2 ->
+  Ud d h2 y -> head_in is_expr_head y -> Mopen d (S (Nat.max h1 h2)) (x ++ s1 ++ [op] ++ s2 ++ y).
 Proof.
-  intros d x s1 op s2 y (n & Hn & Hx) H1 Hop H2 Hy Hh.
+  intros d h1 h2 x s1 op s2 y (n & Hn & Hx) H1 Hop H2 Hy Hh.
   exists (S n). split; [rewrite !app_length; cbn [length]; lia |].
-  intros D k f HD G L.
+  intros D k f HD HH G L.
   assert (Lx : (length x <= fuel)%nat) by (rewrite !app_length in L; lia).
   assert (Ly : (length y <= fuel)%nat) by (rewrite !app_length in L; lia).
-  destruct (Hy D k HD G Ly) as (b & r & Eb & Rb).
+  destruct (Hy D k HD ltac:(lia) G Ly) as (b & r & Eb & Rb & Tb).
   destruct (op_follow s1 op s2 y k H1 (or_introl Hop)) as [G' _].
-  destruct (Hx D _ (S f) HD G' Lx) as (e1 & r1 & E1 & R1).
+  destruct (Hx D _ (S f) HD ltac:(lia) G' Lx) as (e1 & r1 & E1 & R1 & T1).
   destruct (mul_op_char op Hop) as [o Ho].
-  exists (SBinary o e1 b), r. split; [| exact Rb].
-  eapply (chain_more mul_op (U fuel)); eauto. apply op_stop. left. exact Hop.
+  exists (SBinary o e1 b), r. split; [| split; [exact Rb | cbn [expr_height]; rewrite T1, Tb; reflexivity]].
+  eapply (chain_more mul_op (U fuel)); eauto.
+  - apply op_stop. left. exact Hop.
+  - apply fits_under_le. rewrite T1, Tb. exact HH.
 Qed.
 
-Lemma A_more_doc : forall d x s1 op s2 y, Aopen d x -> sps0 s1 -> add_char op -> sps0 s2 ->
-  Mok d y -> head_in is_expr_head y -> Aopen d (x ++ s1 ++ [op] ++ s2 ++ y).
+Lemma A_more_doc : forall d h1 h2 x s1 op s2 y, Aopen d h1 x -> sps0 s1 -> add_char op -> sps0 s2 ->
+  Mok d h2 y -> head_in is_expr_head y -> Aopen d (S (Nat.max h1 h2)) (x ++ s1 ++ [op] ++ s2 ++ y).
 Proof.
-  intros d x s1 op s2 y (n & Hn & Hx) H1 Hop H2 Hy Hh.
+  intros d h1 h2 x s1 op s2 y (n & Hn & Hx) H1 Hop H2 Hy Hh.
   exists (S n). split; [rewrite !app_length; cbn [length]; lia |].
-  intros D k f HD G NM L.
+  intros D k f HD HH G NM L.
   assert (Lx : (length x <= fuel)%nat) by (rewrite !app_length in L; lia).
   assert (Ly : (length y <= fuel)%nat) by (rewrite !app_length in L; lia).
-  destruct (Hy D k HD G NM Ly) as (b & r & Eb & Rb).
+  destruct (Hy D k HD ltac:(lia) G NM Ly) as (b & r & Eb & Rb & Tb).
   destruct (op_follow s1 op s2 y k H1 (or_intror Hop)) as [G' Sk].
   assert (NM' : no_mul (s1 ++ [op] ++ s2 ++ y ++ k)).
   { unfold no_mul. rewrite Sk. destruct Hop as [-> | ->]; reflexivity. }
-  destruct (Hx D _ (S f) HD G' NM' Lx) as (e1 & r1 & E1 & R1).
+  destruct (Hx D _ (S f) HD ltac:(lia) G' NM' Lx) as (e1 & r1 & E1 & R1 & T1).
   destruct (add_op_char op Hop) as [o Ho].
-  exists (SBinary o e1 b), r. split; [| exact Rb].
-  eapply (chain_more add_op (M fuel)); eauto. apply op_stop. right. exact Hop.
+  exists (SBinary o e1 b), r. split; [| split; [exact Rb | cbn [expr_height]; rewrite T1, Tb; reflexivity]].
+  eapply (chain_more add_op (M fuel)); eauto.
+  - apply op_stop. right. exact Hop.
+  - apply fits_under_le. rewrite T1, Tb. exact HH.
 Qed.
 
-Lemma M_one_doc : forall d x, Ud d x -> Mopen d x.
+Lemma M_one_doc : forall d h x, Ud d h x -> Mopen d h x.
 Proof.
-  intros d x H. exists O. split; [lia |]. intros D k f HD G L.
-  destruct (H D k HD G L) as (e & r & E & R). exists e, r. split; [| exact R].
-  unfold separated_foldl1. rewrite E, Nat.add_0_r. reflexivity.
+  intros d h x H. exists O. split; [lia |]. intros D k f HD HH G L.
+  destruct (H D k HD HH G L) as (e & r & E & R & T). exists e, r. split; [| split; [exact R | exact T]].
+  unfold infixl_e at 1. rewrite E, Nat.add_0_r. reflexivity.
 Qed.
 
-Lemma A_one_doc : forall d x, Mok d x -> Aopen d x.
+Lemma A_one_doc : forall d h x, Mok d h x -> Aopen d h x.
 Proof.
-  intros d x H. exists O. split; [lia |]. intros D k f HD G NM L.
-  destruct (H D k HD G NM L) as (e & r & E & R). exists e, r. split; [| exact R].
-  unfold separated_foldl1. rewrite E, Nat.add_0_r. reflexivity.
+  intros d h x H. exists O. split; [lia |]. intros D k f HD HH G NM L.
+  destruct (H D k HD HH G NM L) as (e & r & E & R & T). exists e, r. split; [| split; [exact R | exact T]].
+  unfold infixl_e at 1. rewrite E, Nat.add_0_r. reflexivity.
 Qed.
 
 End DocExpr.
@@ -484,39 +495,41 @@ Scheme dve_ind := Minimality for doc_value_expr Sort Prop
 Combined Scheme doc_expr_ind from dve_ind, dadd_ind, dmul_ind, dun_ind.
 
 Lemma doc_expr_all : forall fuel,
-  (forall d x, doc_value_expr d x -> Vd fuel d x /\ head_in is_expr_head x) /\
-  (forall d x, doc_add d x -> Aopen fuel d x /\ head_in is_expr_head x) /\
-  (forall d x, doc_mul d x -> Mopen fuel d x /\ head_in is_expr_head x) /\
-  (forall d x, doc_unary d x -> Ud fuel d x /\ head_in is_expr_head x).
+  (forall d h x, doc_value_expr d h x -> Vd fuel d h x /\ head_in is_expr_head x) /\
+  (forall d h x, doc_add d h x -> Aopen fuel d h x /\ head_in is_expr_head x) /\
+  (forall d h x, doc_mul d h x -> Mopen fuel d h x /\ head_in is_expr_head x) /\
+  (forall d h x, doc_unary d h x -> Ud fuel d h x /\ head_in is_expr_head x).
 Proof.
   intros fuel. apply doc_expr_ind.
   - intros d x H. split; [apply V_amount_doc; exact H | apply doc_amount_head; exact H].
-  - intros d s1 x s2 H1 _ [Hx Hh] H2. split.
+  - intros d h s1 x s2 H1 _ [Hx Hh] H2. split.
     + apply V_paren_doc; auto. apply Aclose. exact Hx.
     + exists 40, (s1 ++ x ++ s2 ++ [41]). split; reflexivity.
-  - intros d x _ [Hx Hh]. split; [| exact Hh]. apply A_one_doc. apply Mclose. exact Hx.
-  - intros d x s1 op s2 y _ [Hx Hhx] H1 Hop H2 _ [Hy Hhy]. split; [| apply head_in_app; exact Hhx].
+  - intros d h x _ [Hx Hh]. split; [| exact Hh]. apply A_one_doc. apply Mclose. exact Hx.
+  - intros d h1 h2 x s1 op s2 y _ [Hx Hhx] H1 Hop H2 _ [Hy Hhy]. split; [| apply head_in_app; exact Hhx].
     apply A_more_doc; auto. apply Mclose. exact Hy.
-  - intros d x _ [Hx Hh]. split; [| exact Hh]. apply M_one_doc. exact Hx.
-  - intros d x s1 op s2 y _ [Hx Hhx] H1 Hop H2 _ [Hy Hhy]. split; [| apply head_in_app; exact Hhx].
+  - intros d h x _ [Hx Hh]. split; [| exact Hh]. apply M_one_doc. exact Hx.
+  - intros d h1 h2 x s1 op s2 y _ [Hx Hhx] H1 Hop H2 _ [Hy Hhy]. split; [| apply head_in_app; exact Hhx].
     apply M_more_doc; auto.
-  - intros d x H [Hx Hh]. split; [| exact Hh]. apply U_pos_doc; assumption.
-  - intros d x _ [Hx Hh]. split; [apply U_neg_doc; exact Hx |]. exists 45, x. split; reflexivity.
+  - intros d h x H [Hx Hh]. split; [| exact Hh]. apply U_pos_doc; assumption.
+  - intros d h x _ [Hx Hh]. split; [apply U_neg_doc; exact Hx |]. exists 45, x. split; reflexivity.
 Qed.
 
-Lemma doc_value_expr_head : forall d x, doc_value_expr d x -> head_in is_expr_head x.
-Proof. intros d x H. exact (proj2 (proj1 (doc_expr_all O) d x H)). Qed.
+Lemma doc_value_expr_head : forall d h x, doc_value_expr d h x -> head_in is_expr_head x.
+Proof. intros d h x H. exact (proj2 (proj1 (doc_expr_all O) d h x H)). Qed.
 
 (* Stage 1: a documented value expression, followed by a continuation that can not extend it,
    is read by value_expr; of the continuation the parser takes at most leading blanks (after a
-   number without commodity). *)
-Theorem doc_value_expr_accepted : forall fuel d x k,
-  doc_value_expr d x -> (d <= max_expr_depth)%nat -> good_follow k -> (length x <= fuel)%nat ->
-  exists v r, value_expr fuel (x ++ k) = POk v r /\ (r = k \/ r = skip_sp k) /\ skip_sp r = skip_sp k.
+   number without commodity); the tree that is read has the height of the derivation. *)
+Theorem doc_value_expr_accepted : forall fuel d h x k,
+  doc_value_expr d h x -> (d <= max_expr_depth)%nat -> (h <= max_expr_height)%nat ->
+  good_follow k -> (length x <= fuel)%nat ->
+  exists v r, value_expr fuel (x ++ k) = POk v r /\ (r = k \/ r = skip_sp k) /\ skip_sp r = skip_sp k /\
+              vexpr_height v = h.
 Proof.
-  intros fuel d x k H HD G L. rewrite value_expr_VE.
-  destruct (proj1 (proj1 (doc_expr_all fuel) d x H) max_expr_depth k HD G L) as (v & r & E & R).
-  exists v, r. split; [exact E |]. split; [exact R | apply rest_ok_skip; exact R].
+  intros fuel d h x k H HD HH G L. rewrite value_expr_VE.
+  destruct (proj1 (proj1 (doc_expr_all fuel) d h x H) max_expr_depth k HD HH G L) as (v & r & E & R & T).
+  exists v, r. split; [exact E |]. split; [exact R |]. split; [apply rest_ok_skip; exact R | exact T].
 Qed.
 
 
@@ -551,13 +564,13 @@ Proof. intros [| c y] H; [exact I |]. destruct H as [-> | [-> | ->]]; reflexivit
 Lemma vexpr_doc : forall fuel v k, doc_vexpr v -> good_follow k -> (length v <= fuel)%nat ->
   exists e r, value_expr fuel (v ++ k) = POk e r /\ rest_ok r k.
 Proof.
-  intros fuel v k H G L.
-  destruct (doc_value_expr_accepted fuel max_expr_depth v k H (le_n _) G L) as (e & r & E & R & _).
+  intros fuel v k (h & HH & H) G L.
+  destruct (doc_value_expr_accepted fuel max_expr_depth h v k H (le_n _) HH G L) as (e & r & E & R & _).
   eauto.
 Qed.
 
 Lemma doc_vexpr_head : forall v, doc_vexpr v -> head_in is_expr_head v.
-Proof. intros v H. exact (doc_value_expr_head _ _ H). Qed.
+Proof. intros v (h & _ & H). exact (doc_value_expr_head _ _ _ H). Qed.
 
 (* ---- dates ---- *)
 Lemma digit1_ok : forall a k, a <> [] -> all Comb.is_digit a -> starts_not Comb.is_digit k ->
@@ -1728,8 +1741,10 @@ Module DocTxnExamples.
 
 Ltac lit := (eexists; split; [vm_compute; reflexivity | vm_compute; reflexivity]).
 Lemma mk_amount : forall d l s c, doc_decimal l -> sps0 s -> all commodity_char c ->
-  doc_value_expr d (l ++ s ++ c).
+  doc_value_expr d 1 (l ++ s ++ c).
 Proof. intros. apply DV_amount. constructor; assumption. Qed.
+Lemma mk_vexpr : forall h x, (h <=? max_expr_height)%nat = true -> doc_value_expr max_expr_depth h x -> doc_vexpr x.
+Proof. intros h x H1 H2. exists h. split; [apply Nat.leb_le; exact H1 | exact H2]. Qed.
 
 Lemma ex_date1 : doc_date [50; 48; 50; 52; 47; 48; 49; 47; 48; 53].
 Proof.
@@ -1749,19 +1764,21 @@ Qed.
 
 (* 10 USD ; 2 EUR ; 0 ; (1 + -2 * 3) *)
 Lemma ex_v1 : doc_vexpr [49; 48; 32; 85; 83; 68].
-Proof. apply (mk_amount _ [49; 48] [32] [85; 83; 68]); [lit | reflexivity | reflexivity]. Qed.
+Proof. apply (mk_vexpr 1); [reflexivity |]. apply (mk_amount _ [49; 48] [32] [85; 83; 68]); [lit | reflexivity | reflexivity]. Qed.
 Lemma ex_v2 : doc_vexpr [50; 32; 69; 85; 82].
-Proof. apply (mk_amount _ [50] [32] [69; 85; 82]); [lit | reflexivity | reflexivity]. Qed.
+Proof. apply (mk_vexpr 1); [reflexivity |]. apply (mk_amount _ [50] [32] [69; 85; 82]); [lit | reflexivity | reflexivity]. Qed.
 Lemma ex_v3 : doc_vexpr [48].
-Proof. apply (mk_amount _ [48] [] []); [lit | reflexivity | reflexivity]. Qed.
+Proof. apply (mk_vexpr 1); [reflexivity |]. apply (mk_amount _ [48] [] []); [lit | reflexivity | reflexivity]. Qed.
+(* of height 5: the literals 1, "-2" = 2, "-2 * 3" = 3, the sum 4, the parentheses 5 *)
 Lemma ex_v4 : doc_vexpr [40; 49; 32; 43; 32; 45; 50; 32; 42; 32; 51; 41].
 Proof.
-  apply (DV_paren 99 [] [49; 32; 43; 32; 45; 50; 32; 42; 32; 51] []); [reflexivity | | reflexivity].
-  apply (DA_more 99 [49] [32] 43 [32] [45; 50; 32; 42; 32; 51]); [| reflexivity | left; reflexivity | reflexivity |].
-  - apply DA_one, DM_one, DU_pos. apply (mk_amount _ [49] [] []); [lit | reflexivity | reflexivity].
-  - apply (DM_more 99 [45; 50] [32] 42 [32] [51]); [| reflexivity | left; reflexivity | reflexivity |].
-    + apply DM_one. apply (DU_neg 99 [50]). apply (mk_amount _ [50] [] []); [lit | reflexivity | reflexivity].
-    + apply DU_pos. apply (mk_amount _ [51] [] []); [lit | reflexivity | reflexivity].
+  apply (mk_vexpr 5); [reflexivity |].
+  apply (DV_paren 99 4 [] [49; 32; 43; 32; 45; 50; 32; 42; 32; 51] []); [reflexivity | | reflexivity].
+  apply (DA_more 99 1 3 [49] [32] 43 [32] [45; 50; 32; 42; 32; 51]); [| reflexivity | left; reflexivity | reflexivity |].
+  - apply DA_one, DM_one. apply (DU_pos 99 1 [49]). apply (mk_amount _ [49] [] []); [lit | reflexivity | reflexivity].
+  - apply (DM_more 99 2 1 [45; 50] [32] 42 [32] [51]); [| reflexivity | left; reflexivity | reflexivity |].
+    + apply DM_one. apply (DU_neg 99 1 [50]). apply (mk_amount _ [50] [] []); [lit | reflexivity | reflexivity].
+    + apply (DU_pos 99 1 [51]). apply (mk_amount _ [51] [] []); [lit | reflexivity | reflexivity].
 Qed.
 
 (* 2024/01/05=2024-1-6 * (12) Shop *)
@@ -1932,6 +1949,18 @@ Proof. eexists. split; [vm_compute; reflexivity | split; reflexivity]. Qed.
 (* the same shape with 100 levels is accepted *)
 Example depth_100_accepted : exists es, parse_ledger
   [50; 48; 50; 52; 47; 48; 49; 47; 48; 49; 10; 32; 97; 32; 32; 40; 40; 40; 40; 40; 40; 40; 40; 40; 40; 40; 40; 40; 40; 40; 40; 40; 40; 40; 40; 40; 40; 40; 40; 40; 40; 40; 40; 40; 40; 40; 40; 40; 40; 40; 40; 40; 40; 40; 40; 40; 40; 40; 40; 40; 40; 40; 40; 40; 40; 40; 40; 40; 40; 40; 40; 40; 40; 40; 40; 40; 40; 40; 40; 40; 40; 40; 40; 40; 40; 40; 40; 40; 40; 40; 40; 40; 40; 40; 40; 40; 40; 40; 40; 40; 40; 40; 40; 40; 40; 40; 40; 40; 40; 40; 40; 40; 40; 40; 40; 49; 41; 41; 41; 41; 41; 41; 41; 41; 41; 41; 41; 41; 41; 41; 41; 41; 41; 41; 41; 41; 41; 41; 41; 41; 41; 41; 41; 41; 41; 41; 41; 41; 41; 41; 41; 41; 41; 41; 41; 41; 41; 41; 41; 41; 41; 41; 41; 41; 41; 41; 41; 41; 41; 41; 41; 41; 41; 41; 41; 41; 41; 41; 41; 41; 41; 41; 41; 41; 41; 41; 41; 41; 41; 41; 41; 41; 41; 41; 41; 41; 41; 41; 41; 41; 41; 41; 41; 41; 41; 41; 41; 41; 41; 41; 41; 41; 41; 41; 41; 41; 10] = LOk es.
+Proof. eexists. vm_compute. reflexivity. Qed.
+
+(* 256 numbers joined by "+" in parentheses make a tree of height 257 (MAX_EXPR_HEIGHT = 256,
+   finding C06-F23: before the fix a chain of some ten thousand operators overflowed the stack);
+   255 numbers are accepted.  Excluded by the height index of doc_value_expr. *)
+Definition finding_height_257_text : list N :=
+  [50; 48; 50; 52; 47; 48; 49; 47; 48; 49; 10; 32; 97; 32; 32; 40; 49; 43; 49; 43; 49; 43; 49; 43; 49; 43; 49; 43; 49; 43; 49; 43; 49; 43; 49; 43; 49; 43; 49; 43; 49; 43; 49; 43; 49; 43; 49; 43; 49; 43; 49; 43; 49; 43; 49; 43; 49; 43; 49; 43; 49; 43; 49; 43; 49; 43; 49; 43; 49; 43; 49; 43; 49; 43; 49; 43; 49; 43; 49; 43; 49; 43; 49; 43; 49; 43; 49; 43; 49; 43; 49; 43; 49; 43; 49; 43; 49; 43; 49; 43; 49; 43; 49; 43; 49; 43; 49; 43; 49; 43; 49; 43; 49; 43; 49; 43; 49; 43; 49; 43; 49; 43; 49; 43; 49; 43; 49; 43; 49; 43; 49; 43; 49; 43; 49; 43; 49; 43; 49; 43; 49; 43; 49; 43; 49; 43; 49; 43; 49; 43; 49; 43; 49; 43; 49; 43; 49; 43; 49; 43; 49; 43; 49; 43; 49; 43; 49; 43; 49; 43; 49; 43; 49; 43; 49; 43; 49; 43; 49; 43; 49; 43; 49; 43; 49; 43; 49; 43; 49; 43; 49; 43; 49; 43; 49; 43; 49; 43; 49; 43; 49; 43; 49; 43; 49; 43; 49; 43; 49; 43; 49; 43; 49; 43; 49; 43; 49; 43; 49; 43; 49; 43; 49; 43; 49; 43; 49; 43; 49; 43; 49; 43; 49; 43; 49; 43; 49; 43; 49; 43; 49; 43; 49; 43; 49; 43; 49; 43; 49; 43; 49; 43; 49; 43; 49; 43; 49; 43; 49; 43; 49; 43; 49; 43; 49; 43; 49; 43; 49; 43; 49; 43; 49; 43; 49; 43; 49; 43; 49; 43; 49; 43; 49; 43; 49; 43; 49; 43; 49; 43; 49; 43; 49; 43; 49; 43; 49; 43; 49; 43; 49; 43; 49; 43; 49; 43; 49; 43; 49; 43; 49; 43; 49; 43; 49; 43; 49; 43; 49; 43; 49; 43; 49; 43; 49; 43; 49; 43; 49; 43; 49; 43; 49; 43; 49; 43; 49; 43; 49; 43; 49; 43; 49; 43; 49; 43; 49; 43; 49; 43; 49; 43; 49; 43; 49; 43; 49; 43; 49; 43; 49; 43; 49; 43; 49; 43; 49; 43; 49; 43; 49; 43; 49; 43; 49; 43; 49; 43; 49; 43; 49; 43; 49; 43; 49; 43; 49; 43; 49; 43; 49; 43; 49; 43; 49; 43; 49; 43; 49; 43; 49; 43; 49; 43; 49; 43; 49; 43; 49; 43; 49; 43; 49; 43; 49; 43; 49; 43; 49; 43; 49; 43; 49; 43; 49; 43; 49; 43; 49; 43; 49; 43; 49; 43; 49; 43; 49; 43; 49; 43; 49; 43; 49; 43; 49; 43; 49; 43; 49; 43; 49; 43; 49; 43; 49; 43; 49; 43; 49; 43; 49; 43; 49; 43; 49; 43; 49; 43; 49; 43; 49; 43; 49; 43; 49; 43; 49; 43; 49; 43; 49; 43; 49; 43; 49; 43; 49; 43; 49; 43; 49; 43; 49; 43; 49; 43; 49; 43; 49; 43; 49; 43; 49; 43; 49; 43; 49; 43; 49; 43; 49; 43; 49; 43; 49; 43; 49; 43; 49; 43; 49; 43; 49; 43; 49; 43; 49; 41; 10].
+Example finding_height_257 : exists e, parse_ledger finding_height_257_text = LErr [] e /\ pe_label e = L_post_meta /\ pe_span e = (15, 16).
+Proof. eexists. split; [vm_compute; reflexivity | split; reflexivity]. Qed.
+(* the same shape with 255 numbers is accepted *)
+Example height_256_accepted : exists es, parse_ledger
+  [50; 48; 50; 52; 47; 48; 49; 47; 48; 49; 10; 32; 97; 32; 32; 40; 49; 43; 49; 43; 49; 43; 49; 43; 49; 43; 49; 43; 49; 43; 49; 43; 49; 43; 49; 43; 49; 43; 49; 43; 49; 43; 49; 43; 49; 43; 49; 43; 49; 43; 49; 43; 49; 43; 49; 43; 49; 43; 49; 43; 49; 43; 49; 43; 49; 43; 49; 43; 49; 43; 49; 43; 49; 43; 49; 43; 49; 43; 49; 43; 49; 43; 49; 43; 49; 43; 49; 43; 49; 43; 49; 43; 49; 43; 49; 43; 49; 43; 49; 43; 49; 43; 49; 43; 49; 43; 49; 43; 49; 43; 49; 43; 49; 43; 49; 43; 49; 43; 49; 43; 49; 43; 49; 43; 49; 43; 49; 43; 49; 43; 49; 43; 49; 43; 49; 43; 49; 43; 49; 43; 49; 43; 49; 43; 49; 43; 49; 43; 49; 43; 49; 43; 49; 43; 49; 43; 49; 43; 49; 43; 49; 43; 49; 43; 49; 43; 49; 43; 49; 43; 49; 43; 49; 43; 49; 43; 49; 43; 49; 43; 49; 43; 49; 43; 49; 43; 49; 43; 49; 43; 49; 43; 49; 43; 49; 43; 49; 43; 49; 43; 49; 43; 49; 43; 49; 43; 49; 43; 49; 43; 49; 43; 49; 43; 49; 43; 49; 43; 49; 43; 49; 43; 49; 43; 49; 43; 49; 43; 49; 43; 49; 43; 49; 43; 49; 43; 49; 43; 49; 43; 49; 43; 49; 43; 49; 43; 49; 43; 49; 43; 49; 43; 49; 43; 49; 43; 49; 43; 49; 43; 49; 43; 49; 43; 49; 43; 49; 43; 49; 43; 49; 43; 49; 43; 49; 43; 49; 43; 49; 43; 49; 43; 49; 43; 49; 43; 49; 43; 49; 43; 49; 43; 49; 43; 49; 43; 49; 43; 49; 43; 49; 43; 49; 43; 49; 43; 49; 43; 49; 43; 49; 43; 49; 43; 49; 43; 49; 43; 49; 43; 49; 43; 49; 43; 49; 43; 49; 43; 49; 43; 49; 43; 49; 43; 49; 43; 49; 43; 49; 43; 49; 43; 49; 43; 49; 43; 49; 43; 49; 43; 49; 43; 49; 43; 49; 43; 49; 43; 49; 43; 49; 43; 49; 43; 49; 43; 49; 43; 49; 43; 49; 43; 49; 43; 49; 43; 49; 43; 49; 43; 49; 43; 49; 43; 49; 43; 49; 43; 49; 43; 49; 43; 49; 43; 49; 43; 49; 43; 49; 43; 49; 43; 49; 43; 49; 43; 49; 43; 49; 43; 49; 43; 49; 43; 49; 43; 49; 43; 49; 43; 49; 43; 49; 43; 49; 43; 49; 43; 49; 43; 49; 43; 49; 43; 49; 43; 49; 43; 49; 43; 49; 43; 49; 43; 49; 43; 49; 43; 49; 43; 49; 43; 49; 43; 49; 43; 49; 43; 49; 43; 49; 43; 49; 43; 49; 43; 49; 43; 49; 43; 49; 43; 49; 43; 49; 43; 49; 43; 49; 43; 49; 43; 49; 43; 49; 43; 49; 43; 49; 43; 49; 43; 49; 43; 49; 43; 49; 43; 49; 43; 49; 43; 49; 43; 49; 43; 49; 43; 49; 43; 49; 43; 49; 43; 49; 43; 49; 43; 49; 43; 49; 43; 49; 43; 49; 41; 10] = LOk es.
 Proof. eexists. vm_compute. reflexivity. Qed.
 
 End DocTxnExamples.
